@@ -19,14 +19,18 @@ Definition candidates : list byte :=
 
 Definition first_in (c : cls) : option byte := find c candidates.
 
-Definition leaf_word (l : leaf) : option (list byte) :=
+(* rich = false: the shortest word; rich = true: a word that shows more of the leaf (an escape pair, a numeral at the
+   top of its range, a literal whose content looks like syntax) *)
+Definition leaf_word (rich : bool) (l : leaf) : option (list byte) :=
   match l with
   | LTag s | LTagNC s => Some s
-  | LTakeWhile _ => Some []
-  | LTakeWhile1 c => option_map (fun b => [b]) (first_in c)
-  | LEscaped normal _ _ => option_map (fun b => [b]) (first_in normal)
-  | LNumber _ => Some [49]
-  | LLiteral => Some [123; 49; 125; 13; 10; 120]
+  | LTakeWhile c => if rich then Some (match first_in c with Some b => [b] | None => [] end) else Some []
+  | LTakeWhile1 c => option_map (fun b => if rich then [b; b] else [b]) (first_in c)
+  | LEscaped normal ctl escs =>
+    if rich then match escs with e :: _ => Some [ctl; e] | [] => option_map (fun b => [b]) (first_in normal) end
+    else option_map (fun b => [b]) (first_in normal)
+  | LNumber bits => if rich then Some (if bits =? 32 then bs "4294967295" else bs "18446744073709551615") else Some [49]
+  | LLiteral => if rich then Some (bs "{3}" ++ [13; 10; 41; 13; 10]) else Some [123; 49; 125; 13; 10; 120]
   | LComplete _ => None
   end.
 
@@ -43,22 +47,23 @@ Definition shorter (a b : option (list byte)) : option (list byte) :=
   end.
 
 (* a short complete sentence of g, given one for every function *)
-Fixpoint word (W : tbl) (g : G) : option (list byte) :=
+Fixpoint word (rich : bool) (W : tbl) (g : G) : option (list byte) :=
   match g with
-  | Leaf l => leaf_word l
+  | Leaf l => leaf_word rich l
   | Ref f _ => lookup W f
-  | Guard _ g' => word W g'
+  | Guard _ g' => word rich W g'
   | Seq gs =>
     (fix ws (l : list G) : option (list byte) :=
        match l with
        | [] => Some []
-       | x :: l' => match word W x, ws l' with Some a, Some b => Some (a ++ b) | _, _ => None end
+       | x :: l' => match word rich W x, ws l' with Some a, Some b => Some (a ++ b) | _, _ => None end
        end) gs
   | Alt gs =>
     (fix wa (l : list G) : option (list byte) :=
-       match l with [] => None | x :: l' => shorter (word W x) (wa l') end) gs
-  | Opt _ | OptOpt _ | Many0 _ | SepList0 _ _ => Some []
-  | Many1 g' | SepList1 _ g' | Recognize g' | Map _ g' | MapRes _ g' => word W g'
+       match l with [] => None | x :: l' => shorter (word rich W x) (wa l') end) gs
+  | Opt g' | OptOpt g' | Many0 g' | SepList0 _ g' =>
+    if rich then match word rich W g' with Some w => Some w | None => Some [] end else Some []
+  | Many1 g' | SepList1 _ g' | Recognize g' | Map _ g' | MapRes _ g' => word rich W g'
   | Unsupported _ => None
   end.
 
@@ -67,33 +72,33 @@ Fixpoint iter_tbl (n : nat) (step : tbl -> tbl) (t : tbl) : tbl :=
 
 Definition empty_tbl : tbl := map (fun _ => None) all_defs.
 
-Definition words (u : unit) : tbl :=
-  iter_tbl 24 (fun W => map (fun og => match og with Some g => word W g | None => None end) all_defs) empty_tbl.
+Definition words (rich : bool) : tbl :=
+  iter_tbl 24 (fun W => map (fun og => match og with Some g => word rich W g | None => None end) all_defs) empty_tbl.
 
 (* bytes after which g is about to call function t, given such prefixes for every function *)
-Fixpoint reach (W R : tbl) (t : N) (g : G) : option (list byte) :=
+Fixpoint reach (rich : bool) (W R : tbl) (t : N) (g : G) : option (list byte) :=
   match g with
   | Leaf _ | Unsupported _ => None
   | Ref f _ => if f =? t then Some [] else lookup R f
-  | Guard _ g' | Opt g' | OptOpt g' | Many0 g' | Many1 g' | Recognize g' | Map _ g' | MapRes _ g' => reach W R t g'
-  | SepList0 _ g' | SepList1 _ g' => reach W R t g'
+  | Guard _ g' | Opt g' | OptOpt g' | Many0 g' | Many1 g' | Recognize g' | Map _ g' | MapRes _ g' => reach rich W R t g'
+  | SepList0 _ g' | SepList1 _ g' => reach rich W R t g'
   | Seq gs =>
     (fix rs (l : list G) : option (list byte) :=
        match l with
        | [] => None
        | x :: l' =>
-         match reach W R t x with
+         match reach rich W R t x with
          | Some p => Some p
-         | None => match word W x, rs l' with Some a, Some b => Some (a ++ b) | _, _ => None end
+         | None => match word rich W x, rs l' with Some a, Some b => Some (a ++ b) | _, _ => None end
          end
        end) gs
   | Alt gs =>
     (fix ra (l : list G) : option (list byte) :=
-       match l with [] => None | x :: l' => shorter (reach W R t x) (ra l') end) gs
+       match l with [] => None | x :: l' => shorter (reach rich W R t x) (ra l') end) gs
   end.
 
 Definition reach_tbl (W : tbl) (t : N) : tbl :=
-  iter_tbl 24 (fun R => map (fun og => match og with Some g => reach W R t g | None => None end) all_defs) empty_tbl.
+  iter_tbl 24 (fun R => map (fun og => match og with Some g => reach false W R t g | None => None end) all_defs) empty_tbl.
 
 Definition probe_of (W : tbl) (t : N) (ns : list N) : list (list byte) :=
   let R := reach_tbl W t in
@@ -108,7 +113,7 @@ Definition probe_of (W : tbl) (t : N) (ns : list N) : list (list byte) :=
 
 (* one family of probes per parser function that can call itself *)
 Definition probes (ns : list N) : list (list byte) :=
-  let W := words tt in flat_map (fun k => probe_of W (N.of_nat k) ns) (seq 0 (length all_defs)).
+  let W := words false in flat_map (fun k => probe_of W (N.of_nat k) ns) (seq 0 (length all_defs)).
 
 (* ---------------------------------------------------------------- sentences covering every written alternative *)
 
@@ -116,30 +121,30 @@ Definition opt_list (o : option (list byte)) : list (list byte) := match o with 
 
 (* sentences of g that between them take every alternative and repetition shape written in g itself
    (a call is filled with the one word of the callee) *)
-Fixpoint variants (W : tbl) (g : G) : list (list byte) :=
+Fixpoint variants (rich : bool) (W : tbl) (g : G) : list (list byte) :=
   match g with
-  | Leaf l => opt_list (leaf_word l)
+  | Leaf l => opt_list (leaf_word rich l) ++ (if rich then opt_list (leaf_word false l) else [])
   | Ref f _ => opt_list (lookup W f)
-  | Guard _ g' | Recognize g' | Map _ g' | MapRes _ g' => variants W g'
+  | Guard _ g' | Recognize g' | Map _ g' | MapRes _ g' => variants rich W g'
   | Seq gs =>
     (fix vs (l : list G) (pre : list byte) : list (list byte) :=
        match l with
        | [] => []
        | x :: l' =>
-         match word W (Seq l') with
-         | Some suf => map (fun v => pre ++ v ++ suf) (variants W x)
+         match word rich W (Seq l') with
+         | Some suf => map (fun v => pre ++ v ++ suf) (variants rich W x)
          | None => []
          end ++
-         match word W x with Some w => vs l' (pre ++ w) | None => [] end
+         match word rich W x with Some w => vs l' (pre ++ w) | None => [] end
        end) gs []
-  | Alt gs => (fix va (l : list G) : list (list byte) := match l with [] => [] | x :: l' => variants W x ++ va l' end) gs
-  | Opt g' | OptOpt g' => [] :: variants W g'
-  | Many0 g' => [] :: variants W g' ++ match word W g' with Some w => [w ++ w] | None => [] end
-  | Many1 g' => variants W g' ++ match word W g' with Some w => [w ++ w] | None => [] end
+  | Alt gs => (fix va (l : list G) : list (list byte) := match l with [] => [] | x :: l' => variants rich W x ++ va l' end) gs
+  | Opt g' | OptOpt g' => [] :: variants rich W g'
+  | Many0 g' => [] :: variants rich W g' ++ match word rich W g' with Some w => [w ++ w] | None => [] end
+  | Many1 g' => variants rich W g' ++ match word rich W g' with Some w => [w ++ w] | None => [] end
   | SepList0 s g' =>
-    [] :: variants W g' ++ match word W g', word W s with Some w, Some ws => [w ++ ws ++ w] | _, _ => [] end
+    [] :: variants rich W g' ++ match word rich W g', word rich W s with Some w, Some ws => [w ++ ws ++ w] | _, _ => [] end
   | SepList1 s g' =>
-    variants W g' ++ match word W g', word W s with Some w, Some ws => [w ++ ws ++ w] | _, _ => [] end
+    variants rich W g' ++ match word rich W g', word rich W s with Some w, Some ws => [w ++ ws ++ w] | _, _ => [] end
   | Unsupported _ => []
   end.
 
@@ -156,41 +161,41 @@ Definition cshorter (a b : option (list byte * list byte)) : option (list byte *
   end.
 
 (* (prefix, suffix) around one call of t inside g *)
-Fixpoint ctx (W : tbl) (C : ctbl) (t : N) (g : G) : option (list byte * list byte) :=
+Fixpoint ctx (rich : bool) (W : tbl) (C : ctbl) (t : N) (g : G) : option (list byte * list byte) :=
   match g with
   | Leaf _ | Unsupported _ => None
   | Ref f _ => if f =? t then Some ([], []) else clookup C f
-  | Guard _ g' | Opt g' | OptOpt g' | Many0 g' | Many1 g' | Recognize g' | Map _ g' | MapRes _ g' => ctx W C t g'
-  | SepList0 _ g' | SepList1 _ g' => ctx W C t g'
+  | Guard _ g' | Opt g' | OptOpt g' | Many0 g' | Many1 g' | Recognize g' | Map _ g' | MapRes _ g' => ctx rich W C t g'
+  | SepList0 _ g' | SepList1 _ g' => ctx rich W C t g'
   | Seq gs =>
     (fix cs (l : list G) : option (list byte * list byte) :=
        match l with
        | [] => None
        | x :: l' =>
-         match ctx W C t x, word W (Seq l') with
+         match ctx rich W C t x, word rich W (Seq l') with
          | Some (p, s), Some suf => Some (p, s ++ suf)
-         | _, _ => match word W x, cs l' with Some a, Some (p, s) => Some (a ++ p, s) | _, _ => None end
+         | _, _ => match word rich W x, cs l' with Some a, Some (p, s) => Some (a ++ p, s) | _, _ => None end
          end
        end) gs
   | Alt gs =>
     (fix ca (l : list G) : option (list byte * list byte) :=
-       match l with [] => None | x :: l' => cshorter (ctx W C t x) (ca l') end) gs
+       match l with [] => None | x :: l' => cshorter (ctx rich W C t x) (ca l') end) gs
   end.
 
 Fixpoint iter_ctbl (n : nat) (step : ctbl -> ctbl) (t : ctbl) : ctbl :=
   match n with O => t | S n' => iter_ctbl n' step (step t) end.
 
-Definition ctx_tbl (W : tbl) (t : N) : ctbl :=
-  iter_ctbl 24 (fun C => map (fun og => match og with Some g => ctx W C t g | None => None end) all_defs)
+Definition ctx_tbl (rich : bool) (W : tbl) (t : N) : ctbl :=
+  iter_ctbl 24 (fun C => map (fun og => match og with Some g => ctx rich W C t g | None => None end) all_defs)
     (map (fun _ => None) all_defs).
 
-Definition sentences_of (W : tbl) (t : N) : list (list byte) :=
+Definition sentences_of (rich : bool) (W : tbl) (t : N) : list (list byte) :=
   match env t with
   | None => []
   | Some g =>
-    let around := if t =? f_parser_x_parse_response then Some ([], []) else clookup (ctx_tbl W t) f_parser_x_parse_response in
+    let around := if t =? f_parser_x_parse_response then Some ([], []) else clookup (ctx_tbl rich W t) f_parser_x_parse_response in
     match around with
-    | Some (p, s) => map (fun v => p ++ v ++ s) (variants W g)
+    | Some (p, s) => map (fun v => p ++ v ++ s) (variants rich W g)
     | None => []
     end
   end.
@@ -198,4 +203,7 @@ Definition sentences_of (W : tbl) (t : N) : list (list byte) :=
 (* for every parser function reachable from the top: whole responses that between them take every alternative
    written in that function *)
 Definition sentences (u : unit) : list (list byte) :=
-  let W := words u in flat_map (fun k => sentences_of W (N.of_nat k)) (seq 0 (length all_defs)).
+  let W := words false in
+  let Wr := words true in
+  flat_map (fun k => sentences_of false W (N.of_nat k)) (seq 0 (length all_defs)) ++
+  flat_map (fun k => sentences_of true Wr (N.of_nat k)) (seq 0 (length all_defs)).
